@@ -97,7 +97,7 @@ func tumbleScenario(r *Run) {
 		err = planned.Node.Run(execution.ExecutionContext{Context: bubbleCtx()},
 			func(ctx execution.ProduceContext, rec execution.Record) error {
 				nOut++
-				r.Log("  out %s", Msg{Kind: MsgRec, Values: rec.Values, Retr: rec.Retraction, ET: rec.EventTime})
+				r.SinkLog("  out %s", Msg{Kind: MsgRec, Values: rec.Values, Retr: rec.Retraction, ET: rec.EventTime})
 				m, ok := next()
 				if !ok || m.Kind != MsgRec {
 					r.Violate("C21", "tumble_sequence", attrs, "unexpected record %s (input message %d is %v)", RowString(rec.Values), pos, m)
@@ -122,7 +122,7 @@ func tumbleScenario(r *Run) {
 			},
 			func(ctx execution.ProduceContext, msg execution.MetadataMessage) error {
 				nOut++
-				r.Log("  out wm(%s)", Sec(msg.Watermark))
+				r.SinkLog("  out wm(%s)", Sec(msg.Watermark))
 				m, ok := next()
 				if !ok || m.Kind != MsgWM || !m.ET.Equal(msg.Watermark) {
 					r.Violate("C21", "tumble_sequence", attrs, "watermark %s out of place (input message %d is %v)", Sec(msg.Watermark), pos, m)
@@ -339,13 +339,13 @@ func pollScenario(r *Run, mode string) {
 	rel := func(x time.Time) string { return fmt.Sprintf("+%v", x.Sub(start)) }
 	for _, e := range events {
 		if e.kind == "wm" {
-			r.Log("  out wm(%s) at %s", rel(e.wm), rel(e.at))
+			r.SinkLog("  out wm(%s) at %s", rel(e.wm), rel(e.at))
 		} else {
 			sign := "+"
 			if e.rec.Retraction {
 				sign = "-"
 			}
-			r.Log("  out %s%s time=%s et=%s at %s", sign, RowString(e.rec.Values[1:]), rel(e.rec.Values[0].Time), rel(e.rec.EventTime), rel(e.at))
+			r.SinkLog("  out %s%s time=%s et=%s at %s", sign, RowString(e.rec.Values[1:]), rel(e.rec.Values[0].Time), rel(e.rec.EventTime), rel(e.at))
 		}
 	}
 	r.Log("run returned err=%v", runErr)
